@@ -933,6 +933,98 @@ def r10_real_unc_batch(ctx):
                       "pc.F ... pc.Bp in the positions of the loop function's parameters", fn, detail)
 
 
+def r11_complex_unc_batch(ctx):
+    """SolveUnc's coupled (complex-mode) time loop on a generic 4-sample history: rigid-body part d_i+1 = d_i + G v_i + A (g_i + g_i+1 / 2),
+    v_i+1 = v_i + Ap (g_i + g_i+1) (order 0: 1.5 A g_i, 2 Ap g_i; with pc.G = h, pc.A = h^2/3, pc.Ap = h/2 checked by C01-R1 these are the exact
+    double integrals of the held force); elastic part y_0 = ur_inv_v v_0 + ur_inv_d d_0, y_i+1 = Fe y_i + Ae w_i + Be w_i+1 with
+    w = ur_inv_v M^-1 f, and d = ur_d y, v = ur_v y (real systems: Re(ur y) = rur Re(y) - iur Im(y))."""
+    from .sem import Sem, unfn
+    fn = ctx.src.func(SOLVEUNC, "SolveUnc._solve_complex_unc")
+    NT = 4
+    f = tuple(F.sym(f"f{k}") for k in range(NT))
+    pc = lambda x: F.fn("attr:" + x, F.sym("self.pc"))
+    colix = lambda k: F.fn("tuple", F.fn("slice", F.sym("None"), F.sym("None"), F.sym("None")), F.const(k))
+    for order in (1, 0):
+        for systype in ("float", "complex"):
+            def cond(test, ev, order=order, systype=systype):
+                t = utext(test)
+                return {"self.rbsize": True, "self.misnotNone": True, "self.unc": True, "nt>1": True, "self.order==1": order == 1, "self.order==0": order == 0,
+                        "notself.slices": False, "self.ksizeandnt>1": True, "self.ksize": True, "self.systypeisfloat": systype == "float"}.get(t)
+
+            def sub(node, ev):
+                t = utext(node)
+                if t in ("force[rb]", "force[kdof]"):
+                    return ev.ev(node.value)
+                if t.endswith("[:,None]"):
+                    return ev.ev(node.value)           # column broadcast of a per-mode coefficient
+                return NotImplemented
+
+            def call(node, ev):
+                d = dotted(node.func) or ""
+                if d == "np.empty":
+                    return F.const(0)
+                return NotImplemented
+
+            S = Sem(ctx, fn, cond=cond, subscript=sub, call=call, loop_unroll=8, forward_stores=True, pinned={"nt": F.const(NT)},
+                    env={"force": f, "self.imrb": F.sym("imrb"), "self.invm": F.sym("invm")})
+            cells = {}
+            for nm_, ix, val, st in S.ev.cells:
+                u = unfn(ix) if not is_unknown(ix) else None
+                if u and u[0] == "tuple" and len(u[1]) == 2 and not isinstance(u[1][1], str) and u[1][1].is_const():
+                    cells[(nm_, int(u[1][1].const_value()))] = val
+            g = tuple(F.sym("imrb") * x for x in f)
+            dp, vp = F.fn("idx", F.sym("drb"), colix(0)), F.fn("idx", F.sym("vrb"), colix(0))
+            ok, detail = True, None
+            for i in range(NT - 1):
+                if order == 1:
+                    wd = dp + pc("G") * vp + pc("A") * (g[i] + g[i + 1] / 2)
+                    wv = vp + pc("Ap") * (g[i] + g[i + 1])
+                else:
+                    wd = dp + pc("G") * vp + F.const(3) / 2 * pc("A") * g[i]
+                    wv = vp + 2 * pc("Ap") * g[i]
+                for got, w, what in ((cells.get(("drb", i + 1)), wd, "displacement"), (cells.get(("vrb", i + 1)), wv, "velocity")):
+                    if got is None or is_unknown(got) or isinstance(got, tuple) or not need(got).equals(w):
+                        ok = False
+                        detail = detail or {"step": i + 1, "quantity": what, "stored": repr(got)[:300], "recurrence": repr(w)[:300]}
+                dp, vp = wd, wv
+                if not ok:
+                    break
+            ctx.check(ok, f"_solve_complex_unc (order {order}, {systype}): rigid-body part is the exact double integration of the held modal acceleration "
+                          "g = M_rb^-1 f on a generic history", fn, detail)
+            ok = S.same(S.cell("a", "rb"), g)
+            ctx.check(ok, f"_solve_complex_unc (order {order}, {systype}): rigid-body acceleration is M_rb^-1 f at every sample", fn)
+            # elastic part
+            w_ = tuple(pc("ur_inv_v") * (F.sym("invm") * x) for x in f)
+            y0 = cells.get(("y", 0))
+            E = S.E
+            ok = y0 is not None and S.same(y0, "pc.ur_inv_v @ v[kdof, 0] + pc.ur_inv_d @ d[kdof, 0]")
+            ctx.check(ok, f"_solve_complex_unc (order {order}, {systype}): modal state y_0 = ur_inv_v v_0 + ur_inv_d d_0 (state layout [v; d])", fn,
+                      None if ok else repr(y0))
+            yp = y0
+            ok, detail = y0 is not None and not is_unknown(y0), None
+            for i in range(NT - 1):
+                if not ok:
+                    break
+                wy = pc("Fe") * need(yp) + pc("Ae") * w_[i] + (pc("Be") * w_[i + 1] if order == 1 else pc("Be") * w_[i])
+                got = cells.get(("y", i + 1))
+                if got is None or is_unknown(got) or isinstance(got, tuple) or not need(got).equals(wy):
+                    ok = False
+                    detail = {"step": i + 1, "stored": repr(got)[:300], "recurrence": repr(wy)[:300]}
+                yp = wy
+            ctx.check(ok, f"_solve_complex_unc (order {order}, {systype}): y_i+1 = Fe y_i + Ae w_i + Be w_i+1 with w = ur_inv_v M^-1 f on a generic history", fn, detail)
+            Y = "y[:, 1:]"
+            if systype == "float":
+                wd_ = f"pc.rur_d @ {Y}.real.copy() - pc.iur_d @ {Y}.imag.copy()"
+                wv_ = f"pc.rur_v @ {Y}.real.copy() - pc.iur_v @ {Y}.imag.copy()"
+            else:
+                wd_ = f"pc.ur_d @ {Y}"
+                wv_ = f"pc.ur_v @ {Y}"
+            ok = S.same(S.cell("d", "kdof, 1:"), wd_) and S.same(S.cell("v", "kdof, 1:"), wv_)
+            ctx.check(ok, f"_solve_complex_unc (order {order}, {systype}): d = ur_d y and v = ur_v y on the dynamic equations" +
+                      (" (real part taken as rur Re y - iur Im y)" if systype == "float" else ""), fn,
+                      None if ok else {"d": repr(S.cell("d", "kdof, 1:"))[:300], "v": repr(S.cell("v", "kdof, 1:"))[:300]})
+
+
 RULES = [
     ("C01-R1", r1_coef_identities, 150),
     ("C01-R1b", r1b_regime_selectors, 14),
@@ -943,6 +1035,7 @@ RULES = [
     ("C01-R8", r8_solveexp1, 14),
     ("C01-R9", r9_solveexp2, 12),
     ("C01-R10", r10_real_unc_batch, 2),
+    ("C01-R11", r11_complex_unc_batch, 20),
 ]
 
 LEVEL = "other"
@@ -955,10 +1048,15 @@ MANIFEST = {
             "regime is the continuous limit of its neighbour; regime selectors depend on the mass-normalised problem only and the complex-path "
             "coefficients are the exact constant/ramp integrals (R1b); every subscript/operand pair in the ODE package agrees on its index space "
             "(full / non-rf / rb / el / rf, state halves) in both coefficient modes (R3); on the pre_eig path user arrays enter and leave through phi (R4); "
-            "the kdof acceleration is M^-1 (F - B v - K d) with the full damping in all six arms (R6). Hold-order arms are decided under C08-R2/R2c. "
+            "the kdof acceleration is M^-1 (F - B v - K d) with the full damping in all six arms (R6); the mask / index selectors of get_su_coef and the "
+            "partition construction (_make_rb_el, _chk_diag_part) are applied to arrays of their own sub-space (R7); SolveExp1, SolveExp2 (all four E blocks, "
+            "m None/diagonal/full), the uncoupled SolveUnc loop (with the coefficient vectors in the loop function's parameter positions) and the complex-mode "
+            "loop (rigid-body double integration, modal recurrence, ur_d/ur_v mapping) are the documented one-step recurrences on a generic 4-sample history "
+            "(R8-R11: loops over constant ranges unrolled, stores forwarded to loads, helper followed interprocedurally). "
             "Does not decide round-off levels, "
             "conditioning grades or library eigen/expm calls.",
     "note": "Trusted: CPython ast parser, the exact rational normal-form engine (verifier/e2_formula.py); assumes the regime "
             "partition vectors select w2>0 / w2=0 / w2<0 as their defining comparisons say (checked structurally).",
-    "technique": "static formula extraction from the AST + exact rational/transcendental normal forms (differentiation, series) checked against ODE identities",
+    "technique": "static formula extraction from the AST + exact rational/transcendental normal forms (differentiation, series) checked against ODE identities; "
+                 "index-space / sub-space type inference; symbolic evaluation of the solver loops on a generic history compared with the documented recurrence",
 }
